@@ -288,6 +288,20 @@ Theorem c02_rpc_server_panic_is_internal : forall v,
 Proof. intro v. split; reflexivity. Qed.
 Print Assumptions c02_rpc_server_panic_is_internal.
 
+(* An application-wide error handler installed with httpx.SetErrorHandler (the business error handler of the
+   examples) has no say in the timeout reply: the ctx.Done arm still writes 499/503 + reason, exactly what the LTS's
+   flush_timeout appends.  It serves httpx.Error only, as SetErrorHandlerCtx's serves httpx.ErrorCtx only.  (A ctx
+   handler, by the API's contract, does decide the timeout reply: Model.timeout_arm_events, ASSUMPTIONS.) *)
+Theorem c02_timeout_reply_ignores_plain_error_handler : forall code b c s,
+  timeout_arm_events (GPlain code b) c (rw_h (st_rw s)) = timeout_arm_events GNone c (rw_h (st_rw s)) /\
+  rw_log (st_rw (flush_timeout c s)) = (rw_log (st_rw s) ++ timeout_arm_events (GPlain code b) c (rw_h (st_rw s)))%list /\
+  (forall ctx, error_calls (GPlain code b) true = error_calls GNone ctx) /\
+  error_calls (GPlain code b) false = handled_calls code b /\
+  error_calls (GCtx code b) true = handled_calls code b /\
+  (forall ctx, error_calls (GCtx code b) false = error_calls GNone ctx).
+Proof. exact t_timeout_reply_ignores_plain_error_handler. Qed.
+Print Assumptions c02_timeout_reply_ignores_plain_error_handler.
+
 (* ------------------------------------------------------------------ chain order, from the generated lists *)
 Theorem c02_chain_order :
   guards_of C02_Gen.rest_chain = [GMaxConns; GBreaker; GShedding; GTimeout; GRecover; GMaxBytes] /\
